@@ -472,6 +472,15 @@ def stepCore (e : Env) (line : String) : Env × String :=
       let showCall : WCall → String
         | .solve k => s!"solve{k}" | .recover k => s!"recover{k}" | .prepare => "prepare" | .heuristic => "heuristic"
       pure (e, s!"calls={String.intercalate "," (fl.calls.map showCall)} duals={fl.dualsFrom} primal={fl.primalFrom} raises={fl.raises}")
+    | "ref" :: name :: ps =>
+      let some rs := parseRats ps | throw "bad rat"
+      let fs : List Float := rs.map (fun r => Float.ofInt r.num / Float.ofNat r.den)
+      match Pepit.Ref.find name with
+      | none => pure (e, "ref unknown")
+      | some en =>
+        if fs.length != en.params.length then pure (e, "ref arity")
+        else if !en.inDomain fs then pure (e, "ref outside-domain")
+        else pure (e, s!"ref {((en.value fs) * 1000000000000).round.toInt64}")
     | ["flowfail"] =>
       let fl := failedFlow
       pure (e, s!"calls=solve1 duals={fl.dualsFrom} primal={fl.primalFrom} raises={fl.raises}")
